@@ -17,6 +17,7 @@ import collections
 
 from egsim import classes as C
 from egsim import engine, gen, ops as O
+from egsim.props.common import deep_tier
 from egsim.world import World
 
 RULES = ("mixed_links", "cycles", "multipath", "multiverse")
@@ -129,7 +130,8 @@ class C19(engine.Property):
 
     def make_config(self, rng):
         return {
-            "steps": gen.geometric_steps(rng, 3, 50, 12),
+            "steps": gen.geometric_steps(rng, 3, 50, 12) if not (deep_tier() and rng.random() < 0.25) else gen.geometric_steps(rng, 30, 170, 60),
+            "deep_bounds": True,
             "nu": rng.randint(1, 4),
             "nl": rng.randint(1, 4),
             "max_u": 6,
@@ -261,8 +263,10 @@ class C19(engine.Property):
         st.stats["op:" + op["op"]] += 1
         w = st.ex.w
         if op["op"] == "mk_laws" and "exc" not in out:
-            exp = dict(DEFAULT_RULES)
-            exp.update(op.get("kw") or {})
+            # only what was PASSED must read back; the defaults are not the
+            # property's business (they must merely never change afterwards:
+            # the first reading is remembered below)
+            exp = dict(op.get("kw") or {})
             if "wl" in op:
                 exp["edge_whitelist"] = normal_whitelist_spec(op["wl"])
             st.rules[op["new"]] = exp
@@ -270,7 +274,7 @@ class C19(engine.Property):
         # law sets discovered through u.laws are default law sets
         for lab, d in snap.items():
             if d["k"] == "L" and lab not in st.rules:
-                st.rules[lab] = dict(DEFAULT_RULES)
+                st.rules[lab] = {}
         st.snap = snap
         st.view = gen.View(snap)
         if snap != before:
@@ -354,6 +358,9 @@ class C19(engine.Property):
                 return out, engine.viol(
                     "C19/rule-read-raised", {"laws": lab, "exc": type(exc).__name__}
                 )
+            for r, val in got.items():
+                # first reading of a rule that was not passed: remember it
+                exp.setdefault(r, val)
             if got != exp:
                 return out, engine.viol(
                     "C19/rule-attribute-read-back-differs",
